@@ -186,6 +186,15 @@ def generate(rng, tier):
                 yield Scn('v2-%d' % n, lines, {'class': 'validate2', 'kind': 'v2', 'K': K, 'fail': fail, 'path': path, 'arg': args[0], 'setter': setter})
 
 
+    # "simple" options (the value lives in a user variable, the option counts no values): validated like any other
+    # (library only)
+    SIMPLE = [Opt('sint', b'si', 0, 1, cbs=('valid:1',)), Opt('int', b'late', 0, 5)]
+    for k in (0, 1, 2):
+        n += 1
+        lines = gen.prelude(SIMPLE, 0) + (['failat %d' % k] if k else []) + ['parse_buf 0 ' + hx(b'si = 8080\nsi = 70000\nlate = 99\n'), 'dump 0']
+        full = ['v1:%s:0' % hx(b'si'), 'v1:%s:0' % hx(b'si')]
+        want = full if k == 0 else full[:k - 1] + [full[k - 1] + '!']
+        yield Scn('simple%d' % n, lines, {'class': 'simple-option', 'log': want, 'k': k, 'kind': 'parse', 'impl_only': True})
     # a by-name setter asks the callback also when the value it is given is the one already stored
     for path, setter, arg, txt in ((b'j', 'setint', '100', b'j = 100'), (b'j', 'setint', '-5', b'j = -5'), (b's', 'setstr', hx(b'same'), b's = same'),
                                    (b'f', 'setfloat', '4004000000000000', b'f = 2.5'), (b'il', 'setint', '7', b'il = {1, 7}')):
@@ -215,7 +224,7 @@ def generate(rng, tier):
 
 
 def nontrivial(scn, il):
-    return scn.meta['kind'] == 'v2' or len(scn.meta['log']) >= 3 or scn.meta['class'].startswith('registered-late')
+    return scn.meta['kind'] == 'v2' or len(scn.meta['log']) >= 3 or scn.meta['class'].startswith('registered-late') or scn.meta['class'] == 'simple-option'
 
 
 def oracle(scn, il):
